@@ -175,13 +175,25 @@ impl Scenario for HybridScenario {
                 }
             }
         }
+        // 8-bit output: a bucket that passes 255 only once the per-shard histograms are merged
+        if inst == "small" && shards > 1 && dense && r.chance(1, 2) {
+            for _ in 0..r.range(38, 48) {
+                let key = next_key;
+                next_key += 1 + r.below(5) as u64;
+                reports.push((false, key, hot));
+                reports.push((true, key, 7));
+            }
+        }
         // order of submission is irrelevant to the statement: shuffle it
         r.shuffle(&mut reports);
         let n = reports.len();
-        let style = if dense { r.below(3) } else { r.below(5) };
+        // style 5: one shard starts with exactly one report, the others share the rest
+        let style = if shards > 1 && n >= 2 * shards && r.chance(1, 5) { 5 } else if dense { r.below(3) } else { r.below(5) };
         let target = r.below(shards);
+        let lone = r.below(n.max(1));
         let assign: Vec<usize> = (0..n)
             .map(|i| match style {
+                5 => if i == lone { target } else { (target + 1 + i % (shards - 1)) % shards },
                 0 => i % shards,
                 1 | 2 => r.below(shards),
                 3 => target,
@@ -347,8 +359,12 @@ fn judge(p: &Value, shards: usize, buckets: usize, reports: &[Report], assign: &
                 let early: Vec<usize> = (0..shards).filter(|s| (0..3).all(|h| matches!(honest.nodes.get(&(h, *s)), Some(Ok(_))))).collect();
                 let partial = (0..shards).any(|s| { let c = (0..3).filter(|h| honest.nodes.contains_key(&(*h, s))).count(); c != 0 && c != 3 });
                 let zero_err = errs.iter().any(|e| e.contains("zero records"));
-                let class = if o.class == "deadlock" && !early.is_empty() && !stuck.is_empty() && errs.is_empty() && !partial {
-                    // every node of some shard(s) returned Ok early while every node of the other shards waits forever
+                let early_had_input = early.iter().any(|s| assign[..n].contains(s));
+                let class = if o.class == "deadlock" && !early.is_empty() && !stuck.is_empty() && errs.is_empty() && !partial && early_had_input {
+                    // as below, but a shard that did receive reports walked away from the query
+                    "hybrid_hang_shard_with_input_returned_early"
+                } else if o.class == "deadlock" && !early.is_empty() && !stuck.is_empty() && errs.is_empty() && !partial {
+                    // every node of some shard(s) WITHOUT any input returned Ok early while every node of the other shards waits forever
                     "hybrid_hang_shard_returned_early"
                 } else if o.class == "deadlock" && zero_err {
                     "hybrid_hang_after_zero_records_error"
